@@ -171,6 +171,12 @@ let run (cmd : string) (a : v list) : string =
       popt pz (KK.ckk_bound (nat_ k) h)
   | "snp", [keep; k; ns; vs] -> pres pbins (SNP.snp vof nof (bool_ keep) (nat_ k) (items ns vs))
   | "rnp", [keep; k; ns; vs] -> pres pbins (SNP.rnp vof nof (bool_ keep) (nat_ k) (items ns vs))
+  | "snp_trace", [keep; k; ns; vs] ->
+      let (r, tr) = SNPTrace.snp_tr vof nof (bool_ keep) (nat_ k) (items ns vs) in
+      "[" ^ pres pbins r ^ "," ^ plist (plist pz) tr ^ "]"
+  | "rnp_trace", [keep; k; ns; vs] ->
+      let (r, tr) = SNPTrace.rnp_tr vof nof (bool_ keep) (nat_ k) (items ns vs) in
+      "[" ^ pres pbins r ^ "," ^ plist (plist pz) tr ^ "]"
   | "finddiff", [n1; v1; n2; v2] -> plist pitem (SNP.find_diff nof (items n1 v1) (items n2 v2))
   | "cg", [keep; o; ok; f1; f2; f3; f4; limit; k; ns; vs] ->
       let flags = { CG.use_lower_bound = bool_ f1; CG.use_fast_lower_bound = bool_ f2;
